@@ -117,9 +117,13 @@ Definition ls_step (possible : amap (list str)) (tmp : capmap) (kv : str * capva
   end.
 
 Definition ack_step (tmp : capmap) (en : capmap) (tok : str) : capmap :=
-  match aget tok tmp with
-  | Some v => aset tok v en
-  | None => aset tok None en
+  let keep := match aget tok tmp with
+              | Some v => aset tok v en
+              | None => aset tok None en
+              end in
+  match tok with
+  | b :: name => if N.eqb b 45 then adel name en else keep   (* strings.HasPrefix(cap, "-"): delete(enabledCap, cap[1:]) *)
+  | [] => keep
   end.
 
 (* the policy evaluation; returns the updated policy and isError *)
@@ -155,9 +159,12 @@ Definition handle_cap (ord : list str -> list str) (cfg : cap_cfg) (has_tls : bo
   let n := length params in
   if Nat.leb 2 n && streqb (param1 params) s_DEL then
     let caps := parse_cap (last_or_empty params) in
-    (mkSt (st_tmp st) (fold_left (fun en k => adel k en) (akeys caps) (st_enabled st)) (st_sts st), [])
+    (* delete(enabledCap, cap); delete(tmpCap, cap) *)
+    (mkSt (fold_left (fun t k => adel k t) (akeys caps) (st_tmp st))
+          (fold_left (fun en k => adel k en) (akeys caps) (st_enabled st)) (st_sts st), [])
   else if Nat.leb 2 n && streqb (param1 params) s_NAK then
-    (st, [Write s_CAP [s_END]])
+    (* tmpCap = make(...); CAP END *)
+    (mkSt [] (st_enabled st) (st_sts st), [Write s_CAP [s_END]])
   else
     let possible := possible_caps cfg (recently_failed now (st_sts st)) in
     let is_ls := Nat.leb 3 n && (streqb (param1 params) s_LS || streqb (param1 params) s_NEW) in
@@ -215,3 +222,59 @@ Definition registration_writes (cfg : cap_cfg) : list (str * list str) :=
   (if c_tracking cfg then [(s_CAP, [s_LS; s_302])] else []) ++
   [(s_NICK, [c_nick cfg]);
    (s_USER, [c_user cfg; s_star; s_star; match c_name cfg with [] => c_user cfg | nm => nm end])].
+
+(* ---- histories (C08) ------------------------------------------------------ *)
+(* One server CAP line as handleCAP sees it, together with everything else the handler
+   reads at that moment: the clock, whether the connection is over TLS, and the order in
+   which Go happens to iterate tmpCap when it builds CAP REQ (any function of the key
+   list; the theorems only assume it invents no keys). *)
+Record cap_in := mkIn {
+  in_ord : list str -> list str;
+  in_tls : bool;
+  in_now : Z;
+  in_params : list str
+}.
+
+Definition cap_step (cfg : cap_cfg) (st : cap_state) (i : cap_in) : cap_state * list cap_out :=
+  handle_cap (in_ord i) cfg (in_tls i) (in_now i) st (in_params i).
+
+(* state after a history (handlers run one event at a time under the state lock) *)
+Fixpoint cap_after (cfg : cap_cfg) (st : cap_state) (h : list cap_in) : cap_state :=
+  match h with
+  | [] => st
+  | i :: r => cap_after cfg (fst (cap_step cfg st i)) r
+  end.
+
+(* what was written / injected for each event of a history *)
+Fixpoint cap_outs (cfg : cap_cfg) (st : cap_state) (h : list cap_in) : list (list cap_out) :=
+  match h with
+  | [] => []
+  | i :: r => snd (cap_step cfg st i) :: cap_outs cfg (fst (cap_step cfg st i)) r
+  end.
+
+(* ---- ACK tokens with a leading '-' (C08 finding ack-removal-ignored) -------- *)
+(* strings.HasPrefix(cap, "-") : Some cap[1:] *)
+Definition ack_removed (tok : str) : option str :=
+  match tok with
+  | b :: name => if N.eqb b 45 then Some name else None
+  | [] => None
+  end.
+
+(* The body of handleCAP's ACK loop without (aware = false: the CURRENT code, equal to
+   ack_step above) and with (aware = true) the branch added by
+   notes/proposed-fixes/cap-ack-removal.diff:
+       if strings.HasPrefix(cap, "-") { delete(c.state.enabledCap, cap[1:]); continue }
+   When that patch is applied to /repo, apply notes/proposed-fixes/cap-ack-removal.model.diff:
+   ack_step above gets the removal branch (it cannot refer to ack_step_gen, which is defined
+   after it) and Spec/CapSpec.v ack_removal_aware becomes true.  Proofs/CapProofs.v
+   ack_step_matches proves ack_step = ack_step_gen ack_removal_aware and fails to compile
+   when the two are not switched together. *)
+Definition ack_step_gen (aware : bool) (tmp : capmap) (en : capmap) (tok : str) : capmap :=
+  match (if aware then ack_removed tok else None) with
+  | Some name => adel name en
+  | None =>
+      match aget tok tmp with
+      | Some v => aset tok v en
+      | None => aset tok None en
+      end
+  end.
